@@ -142,11 +142,11 @@ func (p *Path) solve(extra *smt.Term, ms int, wantModel bool) (smt.Result, map[s
 	if extra.IsFalse() {
 		return smt.Unsat, nil, nil, ""
 	}
-	quick := p.X.Lim.IncrMS
-	if quick <= 0 {
-		quick = 400
-		if wantModel || ms > p.X.Lim.FeasMS {
-			quick = 2000 // obligations: give the warmed-up incremental session a fair chance
+	quick := 400
+	if wantModel || ms > p.X.Lim.FeasMS {
+		quick = 2000 // obligations: give the warmed-up incremental session a fair chance
+		if p.X.Lim.IncrMS > 0 {
+			quick = p.X.Lim.IncrMS
 		}
 	}
 	if quick > ms {
@@ -411,7 +411,11 @@ func (p *Path) flushBatch() {
 		p.samples = append(p.samples, fmt.Sprintf("[%d obligation(s), first: %s] pc=%s ; negated obligation=%s", len(batch), batch[0].msg, clip(p.pcTerm().String(), 600), clip(q.String(), 800)))
 	}
 	start := time.Now()
-	r, m, arrs, why := p.solve(q, ms, true)
+	bms := ms
+	if len(batch) > 1 && bms > 10000 {
+		bms = 10000 // a batch that is not settled quickly is split into its obligations
+	}
+	r, m, arrs, why := p.solve(q, bms, true)
 	switch {
 	case r == smt.Unsat:
 		p.nDischarged += len(batch)
